@@ -1005,33 +1005,44 @@ Proof.
   apply Qlt_le_weak, Qnot_le_lt. intros Hc. apply Qle_bool_iff in Hc. congruence.
 Qed.
 
-Lemma cut_height_inv D nc th cut : cut_height D nc th = Ok cut ->
-  exists k c,
-    k = match nc with Some k => k | None => match th with None => 2 | Some _ => S (length D) end end /\
-    match nc with Some k => 1 <= k <= S (length D) | None => True end /\
-    nth_error (sortq (heights D)) (S (length D) - k) = Some c /\
-    cut = match th with None => c | Some t => qmax c t end.
+Lemma resolve_inv n nc th k : resolve_n_clusters n nc th = Ok k ->
+  k = match nc with Some k => k | None => match th with None => 2 | Some _ => n end end /\
+  match nc with Some k => 1 <= k <= n | None => True end.
 Proof.
-  unfold cut_height. intros H.
-  set (k := match nc with Some k => k | None => match th with None => 2 | Some _ => S (length D) end end).
-  assert (Hk : match nc with
-               | None => match th with None => Ok 2 | Some _ => Ok (S (length D)) end
-               | Some k => match check_n_clusters k (S (length D)) with Ok _ => Ok k | Err e => Err e end
-               end = Ok k -> match nc with Some k => 1 <= k <= S (length D) | None => True end).
-  { destruct nc as [k0|]; [|trivial]. unfold check_n_clusters.
-    destruct (Nat.ltb (S (length D)) k0) eqn:E1; [discriminate|].
-    destruct (Nat.ltb k0 1) eqn:E2; [discriminate|]. apply Nat.ltb_ge in E1, E2. intros _. lia. }
-  match type of H with match ?X with _ => _ end = _ => destruct X as [k'|] eqn:Ek end; [|discriminate].
-  assert (k' = k).
-  { unfold k. destruct nc as [k0|].
-    - destruct (check_n_clusters k0 (S (length D))); [now inversion Ek | discriminate].
-    - destruct th; now inversion Ek. }
-  subst k'. destruct (nth_error (sortq (heights D)) (S (length D) - k)) as [c|] eqn:Ec; [|discriminate].
-  exists k, c. split; [reflexivity|]. split; [now apply Hk|]. split; [exact Ec|]. now inversion H.
+  unfold resolve_n_clusters. destruct nc as [k0|].
+  - unfold check_n_clusters. destruct (Nat.ltb n k0) eqn:E1; [discriminate|].
+    destruct (Nat.ltb k0 1) eqn:E2; [discriminate|]. apply Nat.ltb_ge in E1, E2.
+    intros H. inversion H; subst. split; [reflexivity|lia].
+  - destruct th; intros H; inversion H; auto.
+Qed.
+
+Lemma cut_height_inv D nc th cut : cut_height D nc th = Ok cut ->
+  exists k, resolve_n_clusters (S (length D)) nc th = Ok k /\
+    ((k = 1 /\ cut = None) \/
+     (k <> 1 /\ exists c, nth_error (sortq (heights D)) (S (length D) - k) = Some c /\
+                          cut = Some (match th with None => c | Some t => qmax c t end))).
+Proof.
+  unfold cut_height. destruct (resolve_n_clusters (S (length D)) nc th) as [k|] eqn:Ek; [|discriminate].
+  intros H. exists k. split; [reflexivity|]. destruct (Nat.eqb k 1) eqn:E1.
+  - apply Nat.eqb_eq in E1. left. now inversion H.
+  - apply Nat.eqb_neq in E1. right. split; [exact E1|].
+    destruct (nth_error (sortq (heights D)) (S (length D) - k)) as [c|]; [|discriminate].
+    exists c. split; [reflexivity|]. now inversion H.
 Qed.
 
 Lemma pstate_length argsort st sort : argsort_ok argsort -> length (pstate argsort st sort) = length st.
 Proof. intros H. apply Permutation_length. now apply pstate_perm. Qed.
+
+(** With threshold = None the cut leaves at most n - n_clusters merges strictly below it. *)
+Lemma cut_height_below n D nc cut : S (length D) = n ->
+  cut_height D (Some nc) None = Ok cut -> 1 <= nc <= n /\ below cut D <= n - nc.
+Proof.
+  intros Hlen H. apply cut_height_inv in H. destruct H as (k & Hk & Hc). rewrite Hlen in *.
+  apply resolve_inv in Hk. destruct Hk as [-> Hk]. split; [exact Hk|].
+  destruct Hc as [[-> ->]|[_ (c & Hc & ->)]].
+  - rewrite below_none. lia.
+  - now apply below_sorted_le.
+Qed.
 
 Lemma cut_straight_count_ge argsort n D0 D nc sort ret labels od :
   cut_input D0 ret = Ok D -> valid n D = true -> argsort_ok argsort ->
@@ -1043,8 +1054,8 @@ Proof.
   rewrite Hin in Hin'. inversion Hin'; subst D'. destruct (valid_rows n D Hv) as [Hlen _]. rewrite Hlen in *.
   destruct (cut_generic _ argsort n D st sort ret labels od Hv Hargs Hrep Hlab) as (_ & _ & _ & Hsub & _).
   rewrite (subtree_partition_num _ _ _ _ Hsub). unfold akeys. rewrite map_length, pstate_length by assumption.
-  apply cut_height_inv in Hcut. destruct Hcut as (k & c & -> & Hk & Hc & ->). rewrite Hlen in *.
-  apply below_sorted_le in Hc. apply replay_count_ge in Hrep.
+  destruct (cut_height_below n D nc cut Hlen Hcut) as [Hk Hb].
+  apply replay_count_ge in Hrep.
   unfold init_clusters in Hrep. rewrite map_length, seq_length in Hrep. lia.
 Qed.
 
@@ -1053,7 +1064,7 @@ Lemma cut_straight_exact argsort n D0 D nc th sort ret labels od cut :
   cut_height D nc th = Ok cut ->
   cut_straight argsort D0 nc th sort ret = Ok (labels, od) ->
   num_clusters labels + below cut D = n /\
-  (forall t r, nth_error D t = Some r -> (r_height r < cut)%Q ->
+  (forall t r, nth_error D t = Some r -> below_cut cut r = true ->
      forall u v, In u (leaves n D (n + t)) -> In v (leaves n D (n + t)) -> nth u labels 0 = nth v labels 0).
 Proof.
   intros Hin Hv Hm Hargs Hcut Hres. apply cut_straight_inv in Hres. destruct Hres as (D' & st & Hst & Hlab).
@@ -1066,7 +1077,7 @@ Proof.
   destruct (cut_generic _ argsort n D st sort ret labels od Hv Hargs Hrep Hlab) as (Hcp & P & El & Hsub & _).
   split.
   - rewrite (subtree_partition_num _ _ _ _ Hsub). unfold akeys. rewrite map_length, pstate_length by assumption. exact HL.
-  - intros t r Hr Hlt u v Hu Hv'. apply qltb_lt in Hlt.
+  - intros t r Hr Hlt u v Hu Hv'.
     assert (Ht : t < length D) by (apply nth_error_Some; congruence).
     destruct (HT t r Ht Hr Hlt) as (k & c & Hkc & Hincl).
     symmetry in P. apply (Permutation_in _ P) in Hkc. destruct (In_nth _ _ (0, []) Hkc) as [l [Hl Enth]].
@@ -1096,25 +1107,24 @@ Qed.
 Lemma sortq_length l : length (sortq l) = length l.
 Proof. apply Permutation_length, sortq_perm. Qed.
 
+(** Every admissible call (n_clusters in 1..n, any threshold) returns a labelling. *)
 Lemma cut_straight_total argsort n D nc th sort :
   valid n D = true -> 2 <= n ->
-  match nc with Some k => 2 <= k <= n | None => True end ->
+  match nc with Some k => 1 <= k <= n | None => True end ->
   exists labels, cut_straight argsort D nc th sort false = Ok (labels, None).
 Proof.
   intros Hv Hn Hnc. destruct (valid_rows n D Hv) as [Hlen Hrows].
-  unfold cut_straight, straight_state, cut_input. simpl. rewrite Hlen.
+  unfold cut_straight, straight_state, straight_state_with, cut_input. simpl. rewrite Hlen.
   assert (Hcut : exists cut, cut_height D nc th = Ok cut).
   { unfold cut_height. rewrite Hlen.
     set (k := match nc with Some k => k | None => match th with None => 2 | Some _ => n end end).
-    assert (Hk : match nc with
-                 | None => match th with None => Ok 2 | Some _ => Ok n end
-                 | Some k => match check_n_clusters k n with Ok _ => Ok k | Err e => Err e end
-                 end = Ok k).
-    { unfold k. destruct nc as [k0|]; [|now destruct th]. unfold check_n_clusters.
+    assert (Hk : resolve_n_clusters n nc th = Ok k).
+    { unfold k, resolve_n_clusters. destruct nc as [k0|]; [|now destruct th]. unfold check_n_clusters.
       replace (Nat.ltb n k0) with false by (symmetry; apply Nat.ltb_ge; lia).
       now replace (Nat.ltb k0 1) with false by (symmetry; apply Nat.ltb_ge; lia). }
-    rewrite Hk. assert (Hlt : n - k < length (sortq (heights D))).
-    { rewrite sortq_length. unfold heights. rewrite map_length. unfold k. destruct nc; [lia|]. destruct th; lia. }
+    rewrite Hk. destruct (Nat.eqb k 1) eqn:E1; [now eexists|]. apply Nat.eqb_neq in E1.
+    assert (Hlt : n - k < length (sortq (heights D))).
+    { rewrite sortq_length. unfold heights. rewrite map_length. unfold k in *. destruct nc; [lia|]. destruct th; lia. }
     apply nth_error_Some in Hlt. destruct (nth_error (sortq (heights D)) (n - k)) as [c|]; [|congruence].
     eexists. reflexivity. }
   destruct Hcut as [cut Hcut]. rewrite Hcut.
@@ -1123,11 +1133,13 @@ Proof.
   rewrite Hst. unfold get_labels. eexists. reflexivity.
 Qed.
 
-(** D6: n_clusters = 1 always raises IndexError (index n - 1 of the n - 1 sorted heights). *)
-Lemma cut_straight_one_cluster_fails argsort D th sort :
-  cut_straight argsort D (Some 1) th sort false = Err IndexError.
+(** D6 (before fix 130034d8): n_clusters = 1 raised IndexError on every dendrogram
+    (index n - 1 of the n - 1 sorted heights). *)
+Lemma legacy_cut_straight_one_cluster_fails argsort D th sort :
+  legacy_cut_straight argsort D (Some 1) th sort false = Err IndexError.
 Proof.
-  unfold cut_straight, straight_state, cut_input. simpl. unfold cut_height, check_n_clusters. simpl.
+  unfold legacy_cut_straight, straight_state_with, cut_input. simpl.
+  unfold legacy_cut_height, resolve_n_clusters, check_n_clusters. simpl.
   replace (length D - 0) with (length D) by lia.
   assert (H : nth_error (sortq (heights D)) (length D) = None).
   { apply nth_error_None. rewrite sortq_length. unfold heights. now rewrite map_length. }
@@ -1172,9 +1184,12 @@ Proof.
   intros Hin Hv Hm Hd Hargs Hcut.
   destruct (cut_straight_result_height _ _ _ _ _ _ _ _ _ Hin Hcut) as [cut Hc].
   destruct (cut_straight_exact argsort n D0 D (Some nc) None sort ret labels od cut Hin Hv Hm Hargs Hc Hcut) as [Hnum _].
-  apply cut_height_inv in Hc. destruct Hc as (k & c & -> & Hk & Hnth & ->).
-  destruct (valid_rows n D Hv) as [Hlen _]. rewrite Hlen in *.
-  rewrite (below_sorted_eq D _ c Hd Hnth) in Hnum. lia.
+  destruct (valid_rows n D Hv) as [Hlen _].
+  apply cut_height_inv in Hc. destruct Hc as (k & Hk & Hc). rewrite Hlen in *.
+  apply resolve_inv in Hk. destruct Hk as [-> Hk].
+  destruct Hc as [[-> ->]|[_ (c & Hc & ->)]].
+  - rewrite below_none in Hnum. lia.
+  - rewrite (below_sorted_eq D _ c Hd Hc) in Hnum. lia.
 Qed.
 
 Lemma cut_straight_threshold argsort n D0 D nc theta sort ret labels od :
@@ -1186,8 +1201,9 @@ Proof.
   intros Hin Hv Hm Hargs Hcut t r Hr Hlt.
   destruct (cut_straight_result_height _ _ _ _ _ _ _ _ _ Hin Hcut) as [cut Hc].
   destruct (cut_straight_exact argsort n D0 D nc (Some theta) sort ret labels od cut Hin Hv Hm Hargs Hc Hcut) as [_ H].
-  apply (H t r Hr). apply cut_height_inv in Hc. destruct Hc as (k & c & _ & _ & _ & ->).
-  eapply Qlt_le_trans; [exact Hlt | apply qmax_ge_r].
+  apply (H t r Hr). apply cut_height_inv in Hc. destruct Hc as (k & _ & [[_ ->]|[_ (c & _ & ->)]]).
+  - reflexivity.
+  - apply below_cut_lt. eapply Qlt_le_trans; [exact Hlt | apply qmax_ge_r].
 Qed.
 
 (** * The stable argsort satisfies the contract *)
